@@ -70,11 +70,11 @@ func visitAndCheck(db *DB, hs *HSnap, shards, concurr int, errAt []int) (kind, d
 	for _, s := range ids {
 		items := per[s]
 		for i := 1; i < len(items); i++ {
-			if db.KeyOf(items[i-1]) >= db.KeyOf(items[i]) {
+			if !db.KeyLess(db.KeyOf(items[i-1]), db.KeyOf(items[i])) {
 				return "shard-order", fmt.Sprintf("shard %d delivered %s then %s (not strictly ascending); shards=%d concurrency=%d", s, fmtItem(items[i-1]), fmtItem(items[i]), shards, concurr), ""
 			}
 		}
-		if len(all) > 0 && len(items) > 0 && db.KeyOf(all[len(all)-1]) >= db.KeyOf(items[0]) {
+		if len(all) > 0 && len(items) > 0 && !db.KeyLess(db.KeyOf(all[len(all)-1]), db.KeyOf(items[0])) {
 			return "partition-order", fmt.Sprintf("last item of an earlier shard %s is not below first item %s of shard %d; shards=%d concurrency=%d (duplicate or overlapping ranges)", fmtItem(all[len(all)-1]), fmtItem(items[0]), s, shards, concurr), ""
 		}
 		all = append(all, items...)
@@ -93,9 +93,10 @@ func visitAndCheck(db *DB, hs *HSnap, shards, concurr int, errAt []int) (kind, d
 func runC10(c *rt.C) {
 	r := c.Rng
 	mem := memModes()[c.Index%3]
-	kv := (c.Index/3)%2 == 1
+	kv := (c.Index/3)%3 == 1
+	rev := (c.Index/3)%3 == 2
 	nKeys := pick(r, 1, 2, 5, 12, 40, 150, 600)
-	db := OpenDB(DBOpt{Mem: mem, KV: kv})
+	db := OpenDB(DBOpt{Mem: mem, KV: kv, Rev: rev})
 	h := BuildHistory(r, db, HistOpt{NKeys: nKeys, Epochs: 2 + r.Intn(6), OpsPerEpoch: nKeys + r.Intn(2*nKeys+1), KeepProb: 0.6, Writers: 1 + r.Intn(3), DeleteBias: 35})
 	maxv, total := h.PhysicalVersions()
 	pairs := 8
